@@ -149,6 +149,7 @@ type Engine struct {
 	gzReaders   map[*Backing]*gzR
 	gzSpin      int
 	blobs       map[int]*Blob
+	tcpConns    map[*Backing]*tcpModel
 	keepTimers  bool
 	jsonHavoc   func(e *Engine, fr *frame, data Slice, dst Iface) Value
 	syncMaps    map[*Backing]map[int]*MapObj
@@ -705,6 +706,7 @@ func (e *Engine) RunPath(entry *ssa.Function, item WorkItem) (res *PathResult) {
 	e.allocLimit = 0
 	e.nblob = 0
 	e.blobs = nil
+	e.tcpConns = nil
 	e.sched = nil
 	e.threads = nil
 	e.aborting = false
